@@ -104,8 +104,10 @@ class Runner:
                 argv += ["--algorithm=" + alg]
             if op["mode"] == "argv":
                 rc, out, err = self.run(argv + toks)
-            else:
+            elif op["mode"] == "stdin":
                 rc, out, err = self.run(argv + ["-"], stdin=("\n".join(toks) + "\n").encode())
+            else:   # the last line is not newline-terminated
+                rc, out, err = self.run(argv + ["-"], stdin="\n".join(toks).encode())
             ev = dict(op)
             ev.pop("op"); ev.pop("key")
             ev.update(e="ToolVerify", exit=rc, gen_exit=grc, ntok=len(toks), toklen=len(tok))
